@@ -470,3 +470,155 @@ Proof.
   clear Er. destruct Hsnd as (o' & Hsnd). destruct res as [out no]. cbn [fst snd] in Hfst, Hsnd. cbv beta iota. rewrite Hsnd, Hfst.
   destruct (12 =? length p) eqn:E; cbn [unwrap bind]; unfold plain_question; rewrite <- !app_assoc; reflexivity.
 Qed.
+
+(** ** Translation of record boundaries ([uncompress_with_previous_offset]) *)
+Lemma fold_emit_snd_none ref : forall lx out no,
+  Forall (fun rx => rv_off (fst rx) <> ref) lx -> snd (fold_left (emit_step ref) lx (out, no)) = no.
+Proof.
+  induction lx as [|rx lx IH]; intros out no H; cbn [fold_left]; [reflexivity|].
+  inversion H as [|? ? Hne Hrest]; subst.
+  change (emit_step ref (out, no) rx) with (out ++ plain_record rx, if rv_off (fst rx) =? ref then Some (length out) else no).
+  destruct (rv_off (fst rx) =? ref) eqn:E; [apply Nat.eqb_eq in E; contradiction|]. apply IH. exact Hrest.
+Qed.
+
+Lemma fold_emit_snd_hit ref : forall l1 rx l2 out no,
+  Forall (fun rx => rv_off (fst rx) <> ref) l1 -> rv_off (fst rx) = ref -> Forall (fun rx => rv_off (fst rx) <> ref) l2 ->
+  snd (fold_left (emit_step ref) (l1 ++ rx :: l2) (out, no)) = Some (length (out ++ concat (map plain_record l1))).
+Proof.
+  induction l1 as [|r1 l1 IH]; intros rx l2 out no H1 Hrx H2; cbn [app fold_left map concat].
+  - change (emit_step ref (out, no) rx) with (out ++ plain_record rx, if rv_off (fst rx) =? ref then Some (length out) else no).
+    rewrite Hrx, Nat.eqb_refl. rewrite fold_emit_snd_none by exact H2. rewrite app_nil_r. reflexivity.
+  - inversion H1 as [|? ? Hne Hrest]; subst.
+    change (emit_step (rv_off (fst rx)) (out, no) r1) with
+      (out ++ plain_record r1, if rv_off (fst r1) =? rv_off (fst rx) then Some (length out) else no).
+    rewrite (IH rx l2 _ _ Hrest eq_refl H2). rewrite <- app_assoc. reflexivity.
+Qed.
+
+Lemma records_at_app p : forall l1 off m, records_at p off l1 m -> forall l2 e, records_at p m l2 e -> records_at p off (l1 ++ l2) e.
+Proof.
+  induction 1 as [off|r off1 l1 m Hr Hrest IH]; intros l2 e H2; cbn [app]; [exact H2|]. econstructor; eauto.
+Qed.
+
+Lemma records_at_offsets p : forall off l e, records_at p off l e ->
+  Forall (fun r => off <= rv_off r /\ rv_end r <= e) l.
+Proof.
+  induction 1 as [off|r off1 l e Hr Hrest IH]; [constructor|].
+  pose proof (record_at_end _ _ _ Hr) as (He & Hlt & _). pose proof (records_at_span _ _ _ _ Hrest) as Hsp.
+  constructor; [unfold rv_end in *; lia|].
+  eapply Forall_impl; [|exact IH]. intros r' [A B]. unfold rv_end in *. lia.
+Qed.
+
+Lemma records_at_split p : forall l1 r l2 off e, records_at p off (l1 ++ r :: l2) e ->
+  Forall (fun r' => rv_off r' <> rv_off r) l1 /\ Forall (fun r' => rv_off r' <> rv_off r) l2 /\ off <= rv_off r.
+Proof.
+  induction l1 as [|r1 l1 IH]; intros r l2 off e H; cbn [app] in H.
+  - destruct (records_cons_inv p _ _ _ _ H) as (Hoff & Hr & Hl2).
+    split; [constructor|]. split; [|lia].
+    pose proof (record_at_end _ _ _ Hr) as (_ & Hlt & _).
+    eapply Forall_impl; [|apply (records_at_offsets _ _ _ _ Hl2)]. intros r' [A _]. unfold rv_end in *. lia.
+  - destruct (records_cons_inv p _ _ _ _ H) as (Hoff & Hr1 & Hrest).
+    destruct (IH r l2 _ e Hrest) as (A & B & C).
+    pose proof (record_at_end _ _ _ Hr1) as (_ & Hlt & _).
+    unfold rv_end in *. split; [constructor; [lia|exact A]|]. split; [exact B|lia].
+Qed.
+
+Theorem uncompress_at_spec : forall p v, bytes_ok p -> parse p = Ok v ->
+  exists qls qt qe e1 e2 lxa lxn lxr,
+    question_of p qls qt CLASS_IN /\ cname_l p 12 qls qe /\
+    records_at p (qe + 4) (map fst lxa) e1 /\ records_at p e1 (map fst lxn) e2 /\
+    records_at p e2 (map fst lxr) (length p) /\
+    Forall (fun rx => rdata_at p (fst rx) (snd rx)) (lxa ++ lxn ++ lxr) /\
+    hdr_ancount p = Ok (N.of_nat (length lxa)) /\ hdr_nscount p = Ok (N.of_nat (length lxn)) /\
+    hdr_arcount p = Ok (N.of_nat (length lxr)) /\
+    let q0 := firstn 12 p ++ plain_question qls qt CLASS_IN in
+    let lx := lxa ++ lxn ++ lxr in
+    let q := q0 ++ concat (map plain_record lx) in
+    (* the question, the end of the packet, and every record boundary are translated *)
+    uncompress_with_previous_offset p 12 = Ok (q, 12) /\
+    uncompress_with_previous_offset p (length p) = Ok (q, length q) /\
+    forall l1 rx l2, lx = l1 ++ rx :: l2 ->
+      uncompress_with_previous_offset p (rv_off (fst rx)) = Ok (q, length (q0 ++ concat (map plain_record l1))).
+Proof.
+  intros p v Hb Hp.
+  destruct (parse_view p v Hb Hp) as (an & ns & ar & qe & e1 & s1 & e2 & s2 & s3 & Hpk & Hqn & Hq4 & Han & Hns & Har &
+                                      Hlan & Hlns & Hlar & Hc1 & Hc2 & Hc3 & Hoan & Hons & Hoar).
+  destruct (rrs_wf_full p _ _ _ _ _ _ Hc1) as (lxa & Hla & Hlla & Hxa & _ & Hnoa & _).
+  destruct (rrs_wf_full p _ _ _ _ _ _ Hc2) as (lxn & Hln & Hlln & Hxn & _ & Hnon & _).
+  destruct (rrs_wf_full p _ _ _ _ _ _ Hc3) as (lxr & Hlr & Hllr & Hxr & _ & _ & _).
+  specialize (Hnoa ltac:(discriminate)). specialize (Hnon ltac:(discriminate)).
+  pose proof (records_at_span _ _ _ _ Hlr) as Hsp3. pose proof (records_at_span _ _ _ _ Hln) as Hsp2.
+  destruct (question_cursor_spec p v Hb Hp) as (qls & qe' & qt & qc & itq & Hcn & Hqt & Hqc & Hq0 & Hqoff & Hqne & Hqraw & _ & _ & _ & Hqend).
+  destruct Hqn as (qls' & Hcn').
+  destruct (cname_l_fun _ _ _ _ _ _ Hcn Hcn') as [<- ->].
+  assert (Hqcls : qc = CLASS_IN).
+  { destruct (question_exists p v Hb Hp) as (l0 & t0 & [(q0 & Hc0 & Ht0 & Hcl0 & _)]).
+    destruct (cname_l_fun _ _ _ _ _ _ Hcn Hc0) as [_ <-]. eapply u16_at_fun; eauto. }
+  subst qc.
+  exists qls, qt, qe, e1, e2, lxa, lxn, lxr.
+  split; [constructor; exists qe; auto|]. split; [exact Hcn|]. split; [exact Hla|]. split; [exact Hln|]. split; [exact Hlr|].
+  split; [apply Forall_app; split; [exact Hxa|apply Forall_app; split; assumption]|].
+  split; [rewrite Hlla, N2Nat.id; exact Han|]. split; [rewrite Hlln, N2Nat.id; exact Hns|]. split; [rewrite Hllr, N2Nat.id; exact Har|].
+  assert (H12 : 12 < length p) by (destruct Hcn; lia).
+  cbv zeta.
+  (* the whole chain of records *)
+  assert (Hall : records_at p (qe + 4) (map fst (lxa ++ lxn ++ lxr)) (length p)).
+  { rewrite !map_app. eapply records_at_app; [exact Hla|]. eapply records_at_app; [exact Hln|exact Hlr]. }
+  assert (Hqlt : 12 < qe) by (destruct Hcn as [_ Hna]; apply name_at_end_gt in Hna; exact Hna).
+  assert (Hoffs : Forall (fun r => qe + 4 <= rv_off r /\ rv_end r <= length p) (map fst (lxa ++ lxn ++ lxr))) by (eapply records_at_offsets; exact Hall).
+  (* the computation, for any reference offset *)
+  assert (Hgen : forall ref,
+            uncompress_with_previous_offset p ref =
+            (let acc := fold_left (emit_step ref) (lxa ++ lxn ++ lxr)
+                                  (firstn 12 p ++ plain_question qls qt CLASS_IN, if 12 =? ref then Some 12 else None) in
+             o <- unwrap (if ref =? length p then Some (length (fst acc)) else snd acc) 522 ;; Ok (fst acc, o))).
+  { intros ref. unfold uncompress_with_previous_offset, DNS_HEADER_SIZE.
+    destruct (length p <? 12) eqn:E12; [lia|]. rewrite Hp. cbn [bind]. rewrite Hq0. cbn [bind].
+    assert (Hfuel : exists f, walk_fuel p = S f) by (unfold walk_fuel; exists (length p + 1); lia).
+    destruct Hfuel as (f & Hf). rewrite Hf at 1. cbn [walk_fold].
+    unfold emit_record at 1. rewrite Hqoff.
+    rewrite Hqraw. cbn [bind unwrap]. rewrite Hqne, Hpk.
+    unfold uncompress_rdata, DNS_RR_QUESTION_HEADER_SIZE. rewrite take_rdata_ok by lia. cbn [bind].
+    rewrite Hqend. cbn [bind]. rewrite walk_fold_None. cbn [bind].
+    assert (Hq4b : firstn 4 (skipn qe p) = be16_bytes qt ++ be16_bytes CLASS_IN).
+    { change 4 with (2 + 2). rewrite firstn_split_at, skipn_skipn.
+      rewrite (be16_of_u16 p _ _ Hb Hqt), (be16_of_u16 p _ _ Hb Hqc). reflexivity. }
+    rewrite Hq4b. rewrite firstn_length. replace (Init.Nat.min 12 (length p)) with 12 by lia.
+    assert (Hca : an = N.of_nat (length lxa)) by lia. assert (Hcn2 : ns = N.of_nat (length lxn)) by lia.
+    assert (Hcr : ar = N.of_nat (length lxr)) by lia.
+    match goal with |- context [walk_fold _ (r_next v) _ _ ?acc] =>
+      pose proof (emit_section_skip p v ref Hb Hpk SAnswer (qe + 4) lxa e1 an acc Hla ltac:(lia) Hca Hxa (conj Han Hoan) Hnoa) as HA end.
+    apply bind_ok in HA. destruct HA as (fa & Hfa & Hwa). rewrite Hfa. cbn [bind]. rewrite Hwa. cbn [bind].
+    match goal with |- context [walk_fold _ (r_next v) _ _ ?acc] =>
+      pose proof (emit_section_skip p v ref Hb Hpk SNameServers e1 lxn e2 ns acc Hln ltac:(lia) Hcn2 Hxn (conj Hns Hons) Hnon) as HN end.
+    apply bind_ok in HN. destruct HN as (fn & Hfn & Hwn). rewrite Hfn. cbn [bind]. rewrite Hwn. cbn [bind].
+    match goal with |- context [walk_fold _ (r_next_including_opt v) _ _ ?acc] =>
+      pose proof (emit_section_incl p v ref Hb Hpk SAdditional e2 lxr (length p) ar acc Hlr (le_n _) Hcr Hxr (conj Har Hoar)) as HR end.
+    apply bind_ok in HR. destruct HR as (fr & Hfr & Hwr). rewrite Hfr. cbn [bind]. rewrite Hwr. cbn [bind].
+    rewrite <- (fold_left_app (emit_step ref) lxa lxn), <- (fold_left_app (emit_step ref) (lxa ++ lxn) lxr), <- app_assoc.
+    unfold plain_question. rewrite <- !app_assoc.
+    match goal with |- context [match ?T with pair _ _ => _ end] => destruct T as [out no] eqn:Efold end.
+    match goal with |- context [fst ?X] => replace X with (out, no) by (symmetry; exact Efold) end.
+    cbn [fst snd]. reflexivity. }
+  assert (Hfst : forall ref no, fst (fold_left (emit_step ref) (lxa ++ lxn ++ lxr) (firstn 12 p ++ plain_question qls qt CLASS_IN, no)) =
+                               (firstn 12 p ++ plain_question qls qt CLASS_IN) ++ concat (map plain_record (lxa ++ lxn ++ lxr))).
+  { intros. apply fold_emit_fst. }
+  assert (Hne12 : Forall (fun rx : rec_view * rd_view => rv_off (fst rx) <> 12) (lxa ++ lxn ++ lxr)).
+  { rewrite Forall_forall. intros rx Hin. rewrite Forall_forall in Hoffs. specialize (Hoffs (fst rx) (in_map fst _ _ Hin)). lia. }
+  split; [|split].
+  - rewrite Hgen. cbv zeta. rewrite Hfst. rewrite fold_emit_snd_none by exact Hne12.
+    replace (12 =? 12) with true by reflexivity. destruct (12 =? length p) eqn:E; [apply Nat.eqb_eq in E; lia|]. reflexivity.
+  - rewrite Hgen. cbv zeta. rewrite Hfst. rewrite Nat.eqb_refl. reflexivity.
+  - intros l1 rx l2 Hlx. rewrite Hgen. cbv zeta. rewrite Hfst.
+    rewrite Hlx in Hall. rewrite map_app in Hall. cbn [map] in Hall.
+    destruct (records_at_split p _ _ _ _ _ Hall) as (A & B & C).
+    assert (Hrx : rv_off (fst rx) <> length p /\ rv_off (fst rx) <> 12).
+    { rewrite Hlx in Hoffs. rewrite Forall_forall in Hoffs. specialize (Hoffs (fst rx)).
+      assert (Hin : In (fst rx) (map fst (l1 ++ rx :: l2))) by (apply in_map, in_or_app; right; left; reflexivity).
+      specialize (Hoffs Hin). destruct (records_at_nth p _ _ _ Hall (length (map fst l1)) (fst rx)) as (_ & _ & (e' & Hre)).
+      { rewrite nth_error_app2 by lia. rewrite Nat.sub_diag. reflexivity. }
+      pose proof (record_at_end _ _ _ Hre) as (_ & Hlt & _). unfold rv_end in *. lia. }
+    destruct (rv_off (fst rx) =? length p) eqn:E; [apply Nat.eqb_eq in E; lia|].
+    rewrite Hlx. rewrite fold_emit_snd_hit; [reflexivity| |reflexivity|].
+    + rewrite Forall_forall in *. intros y Hy. apply (A (fst y)). apply in_map. exact Hy.
+    + rewrite Forall_forall in *. intros y Hy. apply (B (fst y)). apply in_map. exact Hy.
+Qed.
